@@ -3,14 +3,14 @@ CONSTANTS
   Kind = "bind"
   CtxSet = {"mixin", "function", "content"}
   MaxParams = 2
-  DefSet = {"req", "const", "ref1", "glob", "next"}
+  DefSet = {"req", "const", "next"}
   RestSet = {0, 1}
-  MaxPos = 3
-  NamedPool = {"a", "b-x", "b_x", "r", "z"}
+  MaxPos = 2
+  NamedPool = {"a", "b-x", "y", "z"}
   MaxNamed = 2
-  MapPool = {"z"}
-  MaxMap = 1
-  PSplats = {"none", "all", "tail"}
+  MapPool = {"a", "b-x", "z"}
+  MaxMap = 2
+  PSplats = {"none", "fwd"}
   ItemSet = {}
   MaxItems = 0
 INVARIANTS LawHolds LawWellFormed Emit
